@@ -16,7 +16,7 @@ vars == <<l, img, st, acc, cur>>
 NoImg == [bpp |-> 0, ord |-> 0, w |-> 0, h |-> 0, data |-> <<>>]
 Init == /\ l = 1 /\ img = NoImg /\ acc = <<>> /\ cur = 0
         /\ st = [draws |-> 0, fc_calls |-> 0, fc_len_as_pinned_machine |-> 0, fc_len_as_patched_machine |-> 0,
-                 failing_observations |-> 0]
+                 failing_observations |-> 0, clipped_draws |-> 0, huge_new_probes |-> 0]
 
 FcOf(calls) == SelectSeq(calls, LAMBDA c : c.m = "fc")
 DrawDetail(e, tgt, calls) ==
@@ -45,6 +45,12 @@ ItemsDraw(e) ==
   IF img.bpp = 0 THEN <<>>
   ELSE Failing(<< [codes |-> DrawFails(img, e.areas, e.mode, e.at, e.size, e.native), d |-> DrawDetail(e, "native", e.native)],
                   [codes |-> DrawFails(img, e.areas, e.mode, e.at, e.size, e.dflt), d |-> DrawDetail(e, "draw_iter_only", e.dflt)] >>)
+ItemsCDraw(e) ==
+  IF img.bpp = 0 THEN <<>>
+  ELSE Failing(<< [codes |-> ClipDrawFails(img, e.areas, e.mode, e.at, e.size, e.clip, e.native),
+                   d |-> [DrawDetail(e, "native_clipped", e.native) EXCEPT !.what = "cdraw"] @@ [clip |-> e.clip]] >>)
+ItemsHugeNew(e) ==
+  Failing([i \in 1..Len(e.items) |-> [codes |-> HugeNewFails(e.bpp, e.items[i]), d |-> [what |-> "hugenew", bpp |-> e.bpp, item |-> e.items[i]]]])
 StatAfterDraw(e) ==
   IF img.bpp = 0 THEN st ELSE
   LET abs == AbsChain(img, e.areas)
@@ -56,13 +62,15 @@ StatAfterDraw(e) ==
 
 \* <<failing observations, img', st'>> of a non-case event; the CASE has no OTHER: an unknown
 \* event kind is a structural error (trace rejected)
-Known == {"case", "new", "image", "noimage", "pixels", "draw", "panic"}
+Known == {"case", "new", "image", "noimage", "pixels", "draw", "cdraw", "hugenew", "panic"}
 Eff(e) ==
   CASE e.ev = "new"     -> <<ItemsNew(e), img, st>>
     [] e.ev = "image"   -> <<ItemsImage(e), ImageAfter(e), st>>
     [] e.ev = "noimage" -> <<ItemsNoImage(e), img, st>>
     [] e.ev = "pixels"  -> <<ItemsPixels(e), img, st>>
     [] e.ev = "draw"    -> <<ItemsDraw(e), img, StatAfterDraw(e)>>
+    [] e.ev = "cdraw"   -> <<ItemsCDraw(e), img, [st EXCEPT !.clipped_draws = @ + 1]>>
+    [] e.ev = "hugenew" -> <<ItemsHugeNew(e), img, [st EXCEPT !.huge_new_probes = @ + Len(e.items)]>>
     [] e.ev = "panic"   -> << <<[codes |-> {"library_call_panicked"}, msg |-> e.msg, loc |-> e.loc]>>, img, st>>   \* a call that panics did not return the promised result
 
 Flush(case, a) ==
@@ -71,6 +79,7 @@ Flush(case, a) ==
 
 Next == /\ l <= NRec
         /\ Rec[l].ev \in Known
+        /\ (Rec[l].ev = "hugenew" => \A i \in 1..Len(Rec[l].items) : HugeNewWF(Rec[l].items[i]))
         /\ LET e == Rec[l] IN
            IF e.ev = "case"
            THEN /\ Flush(cur, acc)
